@@ -84,7 +84,7 @@ class Facts:
             k = self.__dict__["_known"] = (frozenset(names), frozenset(d["ids"]))
         return k
 
-    def ibody(self, name, keep=None, depth=4, adaptors=True, combinators=False):
+    def ibody(self, name, keep=None, depth=4, adaptors=True, combinators=False, unroll=True):
         """The body with *new* crate-local helpers, visible closures and loop adaptors expanded
         (inline.py).  `keep`: extra names (full, or last path segments) of callees to leave as calls;
         every function listed in known_fns.json is kept."""
@@ -93,13 +93,13 @@ class Facts:
         if b is None:
             return None
         keep = tuple(sorted(keep or ()))
-        key = (b.id, keep, depth, adaptors, combinators)
+        key = (b.id, keep, depth, adaptors, combinators, unroll)
         c = self.__dict__.setdefault("_ibodies", {})
         if key not in c:
             names, ids = self.known()
             def kp(n, keep=keep, names=names):
                 return n in names or any(n == k or n.endswith("::" + k) for k in keep)
-            c[key] = inline.inline_body(self, b, kp, depth, adaptors, known_ids=ids, combinators=combinators)
+            c[key] = inline.inline_body(self, b, kp, depth, adaptors, known_ids=ids, combinators=combinators, unroll=unroll)
         return c[key]
 
     def find(self, suffix):
